@@ -224,10 +224,20 @@ def r2(ctx):
         if v == "Overwrite":
             continue
         recvs = sorted({pretty(strip(x["recv"])) for x in walk(arm["body"]) if x.get("k") == "mcall" and x["callee"] in INPLACE})
-        ok = any(r == "weight" for r in recvs) and any(r in ("bias", "b") for r in recvs)
+        # receivers bound from the optional combined bias (`if let Some(b) = &mut bias` / `bias.as_mut()`) are the bias
+        bias_alias = {"bias", "b"}
+        for y in walk(arm["body"]):
+            if y.get("k") == "letx":
+                src_ = strip(y["init"])
+                while src_ is not None and src_.get("k") == "mcall" and src_["name"] in ("as_mut", "as_deref_mut") and not src_["args"]:
+                    src_ = strip(src_["recv"])
+                if src_ is not None and src_.get("k") == "local" and src_["name"] == "bias":
+                    bias_alias |= {n_ for (n_, _) in pat_binds(y["pat"])}
+        ok = any(r == "weight" for r in recvs) and any(r in bias_alias for r in recvs)
         if v == "Mean":
             divs = [x for x in walk(arm["body"]) if x.get("k") == "mcall" and x["name"] == "div_scalar_inplace"]
-            ok = ok and len(divs) == 2 and all(pretty(strip(x["args"][0])) == "count" for x in divs)
+            ok = ok and len(divs) == 2 and all(pretty(strip(x["args"][0])) == "count" for x in divs) \
+                and sorted(pretty(strip(x["recv"])) in bias_alias for x in divs) == [False, True]
         ctx.check("R10.3", "weights-and-biases:" + v, ok, "combined-objects:%s:%s" % (v, ",".join(recvs)), c.loc(fn, arm["body"]), "weights and biases both combined")
     cnt = [x for x in walk(gather["body"]) if x.get("k") == "assignop" and pretty(strip(x["l"])) == "count"]
     ctx.check("R10.3", "count-per-member", len(cnt) == 1 and e4.lit_value(cnt[0]["r"]) == "1.0", "count-update", c.loc(fn, gather), "count += 1.0 per gathered member")
